@@ -3,6 +3,8 @@ package props
 import (
 	"encoding/json"
 	"fmt"
+	"github.com/truora/minidyn/interpreter"
+	mtypes "github.com/truora/minidyn/types"
 	"sort"
 	"strings"
 
@@ -19,7 +21,7 @@ type c17 struct{ base }
 
 func init() {
 	runner.Register(&c17{base{id: "C17", level: "exploration",
-		rule: "seeded abstract histories of 80 operations (table management with all configurations, single-item writes with and without conditions, updates of all four action kinds, reads, Query/Scan with filters, limits and pagination keys on base tables and indexes, batch writes, failure toggles, helper calls) translated to both SDKs and executed in lock step on a fresh SDK v1 and a fresh SDK v2 client: after EVERY step the normalised outcomes must be equal (error class, returned item, item sequence, Count, LastEvaluatedKey, table description incl. per-index schema and ItemCount, UnprocessedItems). The oracle is the other adapter – no model. Plus a small enumeration of requests with missing / too short required fields. Operations only one adapter implements (BatchGetItem) are excluded. non-trivial = history has >=10 successful data operations and >=1 failing one; distinct by (op-kind sequence).",
+		rule:        "seeded abstract histories of 80 operations (table management with all configurations, single-item writes with and without conditions, updates of all four action kinds, reads, Query/Scan with filters, limits and pagination keys on base tables and indexes, batch writes, failure toggles, helper calls) translated to both SDKs and executed in lock step on a fresh SDK v1 and a fresh SDK v2 client: after EVERY step the normalised outcomes must be equal (error class, returned item, item sequence, Count, LastEvaluatedKey, table description incl. per-index schema and ItemCount, UnprocessedItems). The oracle is the other adapter – no model. Plus a small enumeration of requests with missing / too short required fields. Operations only one adapter implements (BatchGetItem) are excluded. non-trivial = history has >=10 successful data operations and >=1 failing one; distinct by (op-kind sequence).",
 		assumptions: []string{"oracle = the other adapter; equal outcomes can still both be wrong (C01-C16, C18-C19 decide that)", commonAssumptions[1]}}})
 }
 
@@ -92,6 +94,7 @@ func (p *c17) RunCase(ctx *runner.Ctx) runner.CaseResult {
 	x := newRes()
 	if ctx.Case == 0 {
 		p.requiredFields(x, ctx)
+		p.nativeParity(x, ctx)
 		return x.r
 	}
 	r := mon.Rng(ctx.Seed, "C17", ctx.Case)
@@ -226,6 +229,73 @@ func (p *c17) requiredFields(x *res, ctx *runner.Ctx) {
 		if outcomeCanon(o1) != outcomeCanon(o2) {
 			x.r.Counters["required_field_cases_differing"]++
 			x.viol("required-field-validation-differs", "v1="+o1.Class+"/v2="+o2.Class, fmt.Sprintf("%s: SDK v1: %s (%s) | SDK v2: %s (%s)", c.name, outcomeCanon(o1), o1.Msg, outcomeCanon(o2), o2.Msg), map[string]interface{}{"op": c.op, "v1": o1, "v2": o2})
+		}
+	}
+}
+
+// nativeParity: the two clients with the native interpreter switched on and the same Go callbacks registered for the
+// same expression texts - requests whose placeholders are complete, incomplete, or carry names / values the text
+// does not use get the same answer from both (what the text of a request must satisfy does not depend on the SDK
+// generation, nor on whether a callback or the built-in interpreter will run it).
+func (p *c17) nativeParity(x *res, ctx *runner.Ctx) {
+	spec := mon.SpecHashOnly("tbl17n")
+	key := val.Item{"h": val.Str("k")}
+	type nq struct {
+		name string
+		op   adapt.Op
+	}
+	upd, cond, flt, kc := "SET a = :v", "attribute_exists(a)", "a = :f", "h = :h"
+	cases := []nq{
+		{"update", adapt.Op{Kind: adapt.OpUpdate, Table: spec.Name, Key: key, Update: upd, Values: val.Item{":v": val.Str("x")}}},
+		{"update-unused-value", adapt.Op{Kind: adapt.OpUpdate, Table: spec.Name, Key: key, Update: upd, Values: val.Item{":v": val.Str("x"), ":unused": val.Num("1")}}},
+		{"update-unused-name", adapt.Op{Kind: adapt.OpUpdate, Table: spec.Name, Key: key, Update: upd, Values: val.Item{":v": val.Str("x")}, Names: map[string]string{"#unused": "b"}}},
+		{"update-missing-value", adapt.Op{Kind: adapt.OpUpdate, Table: spec.Name, Key: key, Update: upd}},
+		{"update-other-value-only", adapt.Op{Kind: adapt.OpUpdate, Table: spec.Name, Key: key, Update: upd, Values: val.Item{":w": val.Str("x")}}},
+		{"update-with-condition", adapt.Op{Kind: adapt.OpUpdate, Table: spec.Name, Key: key, Update: upd, Cond: cond, Values: val.Item{":v": val.Str("x")}}},
+		{"update-with-condition-unused-value", adapt.Op{Kind: adapt.OpUpdate, Table: spec.Name, Key: key, Update: upd, Cond: cond, Values: val.Item{":v": val.Str("x"), ":unused": val.Num("1")}}},
+		{"update-unregistered-text", adapt.Op{Kind: adapt.OpUpdate, Table: spec.Name, Key: key, Update: "SET b = :v", Values: val.Item{":v": val.Str("x")}}},
+		{"update-unregistered-text-unused-value", adapt.Op{Kind: adapt.OpUpdate, Table: spec.Name, Key: key, Update: "SET b = :v", Values: val.Item{":v": val.Str("x"), ":unused": val.Num("1")}}},
+		{"put-with-condition", adapt.Op{Kind: adapt.OpPut, Table: spec.Name, Item: val.Item{"h": val.Str("k"), "a": val.Str("p")}, Cond: cond}},
+		{"put-with-condition-unused-value", adapt.Op{Kind: adapt.OpPut, Table: spec.Name, Item: val.Item{"h": val.Str("k"), "a": val.Str("p")}, Cond: cond, Values: val.Item{":unused": val.Num("1")}}},
+		{"delete-with-condition-unused-name", adapt.Op{Kind: adapt.OpDelete, Table: spec.Name, Key: key, Cond: cond, Names: map[string]string{"#unused": "b"}}},
+		{"scan-filter", adapt.Op{Kind: adapt.OpScan, Table: spec.Name, Filter: flt, Values: val.Item{":f": val.Str("1")}}},
+		{"scan-filter-unused-value", adapt.Op{Kind: adapt.OpScan, Table: spec.Name, Filter: flt, Values: val.Item{":f": val.Str("1"), ":unused": val.Num("1")}}},
+		{"scan-filter-missing-value", adapt.Op{Kind: adapt.OpScan, Table: spec.Name, Filter: flt}},
+		{"query", adapt.Op{Kind: adapt.OpQuery, Table: spec.Name, KeyCnd: kc, Values: val.Item{":h": val.Str("k")}}},
+		{"query-unused-value", adapt.Op{Kind: adapt.OpQuery, Table: spec.Name, KeyCnd: kc, Values: val.Item{":h": val.Str("k"), ":unused": val.Num("1")}}},
+		{"query-filter-unused-name", adapt.Op{Kind: adapt.OpQuery, Table: spec.Name, KeyCnd: kc, Filter: flt, Values: val.Item{":h": val.Str("k"), ":f": val.Str("1")}, Names: map[string]string{"#unused": "b"}}},
+	}
+	for _, c := range cases {
+		for _, registered := range []bool{true, false} {
+			outs := [2]adapt.Outcome{}
+			reads := [2]adapt.Outcome{}
+			for ai, adapter := range []string{"v1", "v2"} {
+				cl := adapt.New(adapter)
+				nc := nativeOf(cl)
+				native := interpreter.NewNativeInterpreter()
+				if registered {
+					native.AddUpdater(spec.Name, upd, func(item map[string]*mtypes.Item, _ map[string]*mtypes.Item) {
+						s := "native"
+						item["a"] = &mtypes.Item{S: &s}
+					})
+					native.AddMatcher(spec.Name, interpreter.ExpressionTypeConditional, cond, func(map[string]*mtypes.Item, map[string]*mtypes.Item) bool { return true })
+					native.AddMatcher(spec.Name, interpreter.ExpressionTypeFilter, flt, func(map[string]*mtypes.Item, map[string]*mtypes.Item) bool { return true })
+					native.AddMatcher(spec.Name, interpreter.ExpressionTypeKey, kc, func(map[string]*mtypes.Item, map[string]*mtypes.Item) bool { return true })
+				}
+				nc.setInterp(native)
+				nc.activate()
+				cl.Do(createOp(spec))
+				cl.Do(adapt.Op{Kind: adapt.OpPut, Table: spec.Name, Item: val.Item{"h": val.Str("k"), "a": val.Str("1")}})
+				outs[ai] = cl.Do(c.op)
+				reads[ai] = cl.Do(adapt.Op{Kind: adapt.OpGet, Table: spec.Name, Key: key})
+				x.r.Evals += 2
+			}
+			x.fp(true, "native-parity|%s|%v", c.name, registered)
+			x.r.Counters["native_parity_cases"]++
+			if outcomeCanon(outs[0]) != outcomeCanon(outs[1]) || outcomeCanon(reads[0]) != outcomeCanon(reads[1]) {
+				x.viol("native-mode-differs", fmt.Sprintf("%s/v1=%s/v2=%s", c.name, outs[0].Class, outs[1].Class), fmt.Sprintf("%s (callbacks registered: %v): SDK v1: %s (%s) | SDK v2: %s (%s); the item afterwards: v1 %s | v2 %s", c.name, registered, outcomeCanon(outs[0]), outs[0].Msg, outcomeCanon(outs[1]), outs[1].Msg, reads[0].Item.Canon(), reads[1].Item.Canon()),
+					map[string]interface{}{"op": c.op, "registered": registered, "v1": outs[0], "v2": outs[1]})
+			}
 		}
 	}
 }
